@@ -1291,6 +1291,10 @@ def declare_float_atoms(atoms):
 
 def _step(x, up):
     """one float step from raw x."""
+    if type(x).__name__ == "FPV":
+        from . import fp as _fp
+
+        return _fp.nextafter(x, up)
     if not is_sym(x):
         if is_special(x):
             return x
@@ -1341,6 +1345,9 @@ def nextafter(x, d):
             raise Unsupported("nextafter towards a symbolic value")
         if q != q:
             cells.append(nan)
+            continue
+        if type(p).__name__ == "FPV":
+            cells.append(_step(p, q > 0))
             continue
         if not is_sym(p) and not is_special(p) and not is_special(q):
             if Fraction(q) == Fraction(p):
@@ -1571,11 +1578,15 @@ def diff(a, n=1, axis=-1, prepend=None, append=None):
 
 
 # ---- sorting and searching --------------------------------------------------------------------------------
+def _symb(c):
+    return is_sym(c) or type(c).__name__ == "FPV"
+
+
 def _entailed_sorted(cells):
     """True if cells are concretely sorted or the path condition entails a[i] <= a[i+1] for all i."""
     if len(cells) < 2:
         return True
-    sym = [is_sym(c) for c in cells]
+    sym = [_symb(c) for c in cells]
     if not any(sym):
         return all(not r_cmp("gt", cells[i], cells[i + 1]) for i in range(len(cells) - 1))
     conds = []
@@ -1589,7 +1600,7 @@ def _entailed_sorted(cells):
     if not conds:
         return True
     ex = core.cur()
-    key = ("sorted",) + tuple(c.get_id() if is_sym(c) else ("c", str(c)) for c in cells)
+    key = ("sorted",) + tuple(c.get_id() if is_sym(c) else (c.e.get_id() if type(c).__name__ == "FPV" else ("c", str(c))) for c in cells)
     if key in ex.memo:
         return ex.memo[key]
     r, _ = ex._side(z3.Or(conds))
@@ -1609,7 +1620,7 @@ def _sort_perm(cells):
     """-> permutation (list of raw indices, possibly symbolic cells) sorting `cells`; returns (sorted_cells, perm or None)"""
     n = len(cells)
     idx = list(range(n))
-    if not any(is_sym(c) for c in cells):
+    if not any(_symb(c) for c in cells):
         def keyf(i):
             c = cells[i]
             if is_special(c):
@@ -1736,7 +1747,7 @@ def unique(a, return_counts=False, return_inverse=False, return_index=False):
     for c in cells:  # equality forks via decide; builds distinct representatives
         if not any(decide(r_cmp("eq", c, o)) for o in out):
             out.append(c)
-    if any(is_sym(c) for c in out):
+    if any(_symb(c) for c in out):
         old = SORT
         try:
             set_policy(sort="fork")
